@@ -18,7 +18,8 @@ from .. import ops as O
 from .. import recorder as REC
 from . import _e1common as X
 
-CLASSES = {"plain": "unguarded", "ign": "unguarded", "g0": "guarded", "g1": "guarded"}
+CLASSES = {"plain": "unguarded", "ign": "unguarded", "g0": "guarded", "g1": "guarded",
+           "n00": "nested", "n01": "nested", "n10": "nested", "n11": "nested"}
 
 
 def extra_programs():
@@ -33,7 +34,8 @@ def extra_programs():
 
 
 def _task(t):
-    prog, n, p, vals = t
+    prog, n, p, vals = t[:4]
+    modes = E.MODES + (E.NESTED_MODES if (len(t) > 4 and t[4]) else ())
     name = O.expr_str(prog["expr"], prog["kinds"])
     kinds = prog["kinds"]
     const_idx = [i for i, k in enumerate(kinds) if k == "K"]
@@ -44,7 +46,7 @@ def _task(t):
     for vec in E.input_vectors(prog, vals):
         key = tuple(vec[i] for i in const_idx)
         g = groups.setdefault(key, {})
-        for mode in E.MODES:
+        for mode in modes:
             o = E.execute(prog, vec, mode, n, True, p)
             st["executions"] += 1
             st["transitions"] += o.calls
@@ -108,13 +110,13 @@ def validate_recorder(ctx, n):
 
 
 def run(ctx):
-    progs = E.depth1_programs() + extra_programs()
+    progs = E.depth1_programs(include_fxp=True) + extra_programs()
     tasks = []
     cfgs = [(3, REC.BN128), (2, REC.BLS12_381)] + ([(4, REC.CURVE25519), (8, REC.BN128)] if ctx.thorough else [])
     for n, p in cfgs:
         vals = E.D(n) if n <= 3 else E.lattice(n)
         for prog in progs:
-            tasks.append((prog, n, p, vals))
+            tasks.append((prog, n, p, vals, n == 2 or ctx.thorough))       # nested guards at bitlength 2
     d2 = X.depth2_family(ctx)
     for prog in d2:
         tasks.append((prog, 2, REC.BN128, E.D(2)))
@@ -135,7 +137,8 @@ def run(ctx):
     ctx.cov["exhaustive"] = True
     ctx.cov["rule"] = ("program = depth-1 program (all operators x operand kinds incl. public inputs, assertions, "
                        "selection) or depth-2 composition; group = program + its public literals + mode class "
-                       "(unguarded: checked and ignore_errors runs; guarded: guard 0 and guard 1); every group's "
+                       "(unguarded: checked and ignore_errors runs; guarded: guard 0 and guard 1; nested: two nested "
+                       "secret guards 00/01/10/11); every group's "
                        "completed runs over ALL vectors of D(n) must share one canonical trace (variable kinds in "
                        "order, constraints in order with coefficients mod p, result wire expressions); "
                        "distinct_outcomes = groups with >= 2 completed runs (non-trivial comparisons); states = "
